@@ -31,9 +31,11 @@ ImplKeyAccept(f, k) == LET s == Scan(f, 1, {}) IN ~s.err /\ k \in s.keys
 \* ---- password callback for the service users
 Users == {"health", "schedule", "continuous", "other"}
 Passwords == {"HEALTHPW", "job1", "job2", "job3", "jobX", "wrong", ""}
-Addrs == {"ip1", "ip2", "ip1x", "ipz"}       \* ip1x: an address that has ip1 as a textual prefix (127.0.0.1 vs 127.0.0.10)
+Addrs == {"ip1", "ip2", "ip1x", "ipz", "ip6l", "ip6u"}   \* ip1x: an address that has ip1 as a textual prefix (127.0.0.1 vs 127.0.0.10);
+                                                         \* ip6l / ip6u: IPv6 sources, one on an allow list, one on none
+IPv6 == {"ip6l", "ip6u"}
 \* jobX: a scheduled and a continuous job may carry the same name; their allow lists stay separate
-SchedJobs == {[name |-> "job1", allow |-> {"ip1"}], [name |-> "job2", allow |-> {"ip2", "ip1"}], [name |-> "jobX", allow |-> {"ip2"}]}
+SchedJobs == {[name |-> "job1", allow |-> {"ip1", "ip6l"}], [name |-> "job2", allow |-> {"ip2", "ip1"}], [name |-> "jobX", allow |-> {"ip2"}]}
 ContJobs  == {[name |-> "job3", allow |-> {"ip2"}], [name |-> "jobX", allow |-> {"ip1"}]}
 RefPwAccept(u, pw, addr) ==
   \/ u = "health" /\ pw = "HEALTHPW"
@@ -41,8 +43,9 @@ RefPwAccept(u, pw, addr) ==
   \/ u = "continuous" /\ \E j \in ContJobs : pw = j.name /\ addr \in j.allow
 ImplPwAccept(u, pw, addr) ==     \* Callback(): switch user.Name ... backgroundCanSSH(): job name equal, remote IP equal to a looked-up allowed IP
   CASE u = "health" -> pw = "HEALTHPW"
-    [] u = "schedule" -> \E j \in SchedJobs : pw = j.name /\ \E a \in j.allow : addr = a
-    [] u = "continuous" -> \E j \in ContJobs : pw = j.name /\ \E a \in j.allow : addr = a
+    \* (the source IP is cut out of "ip:port" at the first ':', so an IPv6 source "[2001:db8::7]:port" never equals an allowed address)
+    [] u = "schedule" -> addr \notin IPv6 /\ \E j \in SchedJobs : pw = j.name /\ \E a \in j.allow : addr = a
+    [] u = "continuous" -> addr \notin IPv6 /\ \E j \in ContJobs : pw = j.name /\ \E a \in j.allow : addr = a
     [] OTHER -> FALSE
 \* the health user can run nothing but the health command
 Commands == {"health", "cat", "grep", "tail", "map", ".ack", "other"}
@@ -67,6 +70,10 @@ KeyDecisionsRight == \A i \in 1..Len(hist) : hist[i].granted = RefKeyAccept(hist
 NeverGrantUnlisted == \A i \in 1..Len(hist) : hist[i].granted => RefKeyAccept(hist[i].f, hist[i].o.key)
 \* (the password decisions are stateless as well: the harness replays every ordered pair of password cases on one server
 \* and compares the second decision with the same Ref)
-PwDecisionsRight == \A u \in Users, pw \in Passwords, a \in Addrs : ImplPwAccept(u, pw, a) = RefPwAccept(u, pw, a)
+\* "granted only to": nothing outside the Ref is granted; everything inside it is granted as well, except that a listed IPv6
+\* source is refused (the statement does not demand the grant)
+PwDecisionsRight == \A u \in Users, pw \in Passwords, a \in Addrs :
+                       /\ ImplPwAccept(u, pw, a) => RefPwAccept(u, pw, a)
+                       /\ (a \notin IPv6 => ImplPwAccept(u, pw, a) = RefPwAccept(u, pw, a))
 HealthOnly == \A c \in Commands : ImplHealthAnswers(c) = RefHealthAnswers(c)
 =============================================================================
